@@ -8,6 +8,20 @@ import PyrollModel.HookEval
 
 namespace Hooks
 
+/-- how a hook object OTHER than the one plain attribute lookup finds gets asked for a class `c` (or an instance of it) -/
+inductive Via where
+  /-- `super(K, x).h` with `x` the class `c` or an instance of it: the lookup starts AFTER `K` in `c.__mro__` -/
+  | super (k : Cls)
+  /-- the explicit descriptor call `S.__dict__["h"].__get__(x, C)` with `S` a class of `c.__mro__` -/
+  | dict (s : Cls)
+  deriving Repr, DecidableEq
+
+/-- the class whose hook object is asked (`none`: AttributeError - no class after `K` in the `__mro__` carries the hook /
+    `S` is no base of `c` or carries none) -/
+def viaLookup (st : State) : Via → Cls → Option Cls
+  | .super k, c => (((st.mro c).dropWhile fun x => x != k).tail).find? fun j => (st.own j).isSome
+  | .dict s, c => if (st.mro c).contains s && (st.own s).isSome then some s else none
+
 inductive Op where
   /-- `type(name, bases, {…})`, `hook`: the class body defines the hook itself -/
   | defClass (c : Cls) (m : List Cls) (hook : Bool)
@@ -25,6 +39,12 @@ inductive Op where
   | readFns (c : Cls)
   /-- `C().h` on a fresh instance -/
   | read (c : Cls)
+  /-- the hook object of a base class asked for `c` without evaluating anything: `super(K, C).h`, `super(K, i).h` /
+      `S.__dict__["h"].__get__(None, C)`, `S.__dict__["h"].__get__(i, C)` with `i` an instance of `C` holding an explicit value -/
+  | touchVia (v : Via) (c : Cls)
+  /-- the same on a fresh instance of `c` (with its input): `super(K, C()).h` / `S.__dict__["h"].__get__(C(), C)` computes
+      the value -/
+  | readVia (v : Via) (c : Cls)
   deriving Repr, DecidableEq
 
 def setOwn (st : State) (c : Cls) (h : HookObj) : State :=
@@ -45,7 +65,9 @@ def instsOf : List Ev → List Cls
 def touchRead (st : State) (c : Cls) : State :=
   (instsOf (readOut st c).2).foldl touchAll (touchAll st c)
 
-def step (st : State) : Op → State
+/-- one operation; `reuse` says what `Hook.__get__` does when asked with an owner that carries a hook object already
+    (`askAs`) - only the operations `touchVia` / `readVia` can get there -/
+def stepWith (reuse : Bool) (st : State) : Op → State
   | .defClass c m hook =>
     if classOk st.mro c m then
       { st with mro := fun x => if x = c then m else st.mro x,
@@ -71,8 +93,27 @@ def step (st : State) : Op → State
     | some h => setOwn st1 c (h.erase id)
   | .readFns c => (functionsOf st c).1
   | .read c => touchRead st c
+  | .touchVia v c =>
+    match viaLookup st v c with
+    | none => st                     -- AttributeError
+    | some s => askAs reuse st s c
+  | .readVia v c =>
+    match viaLookup st v c with
+    | none => st
+    | some s => touchRead (askAs reuse st s c) c
+
+/-- the concrete machine: `stepWith` instantiated with the flag READ FROM THE SOURCE (`Gen.C01.Hooks.getOwnerReuse`) -/
+def step (st : State) (op : Op) : State := stepWith ownerReuse st op
 
 def run (ops : List Op) : State := ops.foldl step init
+
+/-- the machine with the flag given (for statements about one of the two source forms) -/
+def runWith (reuse : Bool) (ops : List Op) : State := ops.foldl (stepWith reuse) init
+
+/-- what `super(K, C()).h` / `S.__dict__["h"].__get__(C(), C)` answers in state `st` (`none` = AttributeError: no hook
+    object found to ask) -/
+def readViaOut (reuse : Bool) (st : State) (v : Via) (c : Cls) : Option (Option Nat × List Ev) :=
+  (viaLookup st v c).map fun s => readOut (askAs reuse st s c) c
 
 /-- abstract state: class hierarchy, classes on which the hook was DEFINED, live registrations in log order -/
 structure AState where
@@ -102,15 +143,18 @@ def astep (a : AState) : Op → AState
   | .touchInst _ => a
   | .readFns _ => a
   | .read _ => a
+  | .touchVia _ _ => a
+  | .readVia _ _ => a
 
 def arun (ops : List Op) : AState := ops.foldl astep ainit
 
 /-- the live registrations after a history -/
 def liveLog (ops : List Op) : List Reg := (arun ops).log
 
-/-- operations that only access the hook (through a class or an instance) -/
+/-- operations that only access the hook (through a class or an instance, by plain attribute lookup, through `super` or
+    by an explicit descriptor call) -/
 def Op.isTouch : Op → Bool
-  | .touchClass _ | .touchInst _ | .readFns _ | .read _ => true
+  | .touchClass _ | .touchInst _ | .readFns _ | .read _ | .touchVia _ _ | .readVia _ _ => true
   | _ => false
 
 end Hooks
